@@ -67,6 +67,17 @@ BG_DATA = [b"", b"\xff", b"\x55\xaa", b"\xaa\x55", b"\x01", b"\xfe\xff", b"\x80"
 EDGE_DATA = b"\x01\x02\x03"  # not a background payload, so the edge product is disjoint from the sweeps
 LENGTHS = list(range(18)) + [255, 256, 257, 1024, 65528, 65529]
 OVERSIZE = [65530, 65531, 65536, 70000]
+
+
+def sweep_lengths(tier):
+    """payload lengths that make the 16-bit length field take every low-octet value under high octets 0..4 and every
+    carry pattern (window -40..+8) around further multiples of 256 - a decoder that slices with the length field sees all of them"""
+    vals = set(range(18, 1101))
+    highs = list(range(5, 17)) + [31, 32, 63, 64, 127, 128, 254, 255] + ([] if tier == "quick" else list(range(17, 31)))
+    for h in highs:
+        vals.update(range(h * 256 - 40, h * 256 + 9))
+    return sorted(vals)
+
 FILL = bytes([0x2F, 17, 1, 0, 0])
 PING = RP.tc(17, 1, apid=1, seq_count=22)
 TAILS = [b"", PING, bytes([17, 1, 0, 0, 0xAB, 0x62]), bytes(16), b"\xff" * 16]
@@ -107,6 +118,8 @@ def shards(tier):
             items.append({"kind": "payload", "bg": bg, "part": part, "parts": parts, "all_deep": tier == "thorough"})
     for bg in range(_kp(tier)):
         items.append({"kind": "lengths", "bg": bg})
+        for part in range(2):
+            items.append({"kind": "len-sweep", "bg": bg, "part": part, "parts": 2, "tier": tier})
     items.append({"kind": "oversize"})
     items.append({"kind": "defaults", "k": 8})
     for axis in range(6):
@@ -605,7 +618,7 @@ def run_shard(item):
     rec = Rec(PROPERTY, item)
     kind = item["kind"]
     keeper = None
-    if kind in ("sweep", "edge", "payload", "lengths"):
+    if kind in ("sweep", "edge", "payload", "lengths", "len-sweep"):
         keeper = Keeper(rec, PROPERTY, depth=keep_depth(kind in ("edge", "lengths"), bool(item.get("all_deep")) or kind == "lengths"))
     if kind == "sweep":
         axis = item["axis"]
@@ -644,6 +657,15 @@ def run_shard(item):
             for idx in range(len(D.shaped(L))):
                 check_tc(rec, bg, ("shaped", L, idx), nontrivial=L > 2, routes=True, keeper=keeper)
                 rec.count("shaped_payloads")
+    elif kind == "len-sweep":
+        bg = background(item["bg"])
+        n = 0
+        for i, L in enumerate(sweep_lengths(item["tier"])):
+            if i % item["parts"] != item["part"] or L > 65529:
+                continue
+            check_tc(rec, bg, ("shaped", L, (i + item["bg"]) % len(D.shaped(L))), nontrivial=L not in LENGTHS, deep=(i % 8 == 0), keeper=keeper)
+            n += 1
+        rec.count("length_sweep_payloads", n)
     elif kind == "history":
         run_histories(rec, item)
     elif kind == "defaults":
